@@ -84,3 +84,34 @@ theorem chunks_unfold (k u : Nat) (pos : Option Pos) (toks : List (List Tok))
   simp [chunks, realCfg]
 
 end PhpVerif.C15
+
+namespace PhpVerif.C15
+open PhpVerif PhpVerif.Gen
+
+/-- token and child fields in the order the printer statements mention them (a separated list counts
+    as its items followed by its separators, which the printer interleaves) -/
+def fieldOrder : List POp → List Nat
+  | [] => []
+  | .tok f _ :: r => f :: fieldOrder r
+  | .node f :: r => f :: fieldOrder r
+  | .list f :: r => f :: fieldOrder r
+  | .sep f g _ :: r => f :: g :: fieldOrder r
+  | .alt f _ :: r => f :: fieldOrder r
+  | .html f _ :: r => f :: fieldOrder r
+
+def printedIdx (sorts : List Nat) : List Nat :=
+  (List.range sorts.length).filter (fun j => sortAt sorts j == 1 || sortAt sorts j == 2 || sortAt sorts j == 3 || sortAt sorts j == 4)
+
+def printerOrderOK : Bool :=
+  allRows2 (fun sorts ops => fieldOrder ops == printedIdx sorts) schemaSorts printerTab
+
+/-- OBLIGATION: every printer method mentions the token and child fields of its kind in exactly the
+    order in which pkg/ast/node.go declares them.  Struct declaration order is therefore the source
+    order the grammar-action obligations (Props/Actions.lean) and the traverser obligation refer to. -/
+theorem printer_order_is_field_order : printerOrderOK = true := by decide +kernel
+
+theorem printer_order_row (k : Nat) : fieldOrder (printF k) = printedIdx (sch k) := by
+  have hk := allRows2_spec (fun sorts ops => fieldOrder ops == printedIdx sorts) _ _ printer_order_is_field_order k
+  simpa [printF, sch] using hk
+
+end PhpVerif.C15
